@@ -62,3 +62,8 @@ Definition driver_obs
   let dflt := if dflt_panic then Panic P_other else Exit1 in
   let '(s, st) := run_main (unit_lookup tbl dflt) o linewise serial input (mkD (fs_of_obs fs) []) in
   (fs_obs (d_fs s), d_out s, match st with Done => 0 | Failed false => 1 | Failed true => 2 end).
+
+From Vicut Require Import Model.Keys.
+Definition keys_obs (bs : list N) :=
+  let '(ks, r) := keys_of bs in (ks, r_bytes r, r_esc r).
+Definition expand_obs (t : text) := expand_literal (fun _ => None) (S (length t)) t.
